@@ -174,6 +174,24 @@ def _common_axis(axes, join):
         com_axis = ax0.intersection(ax1)
     return com_axis
 
+def _keep_common_direction(ax, axes):
+    """ inputs that are all sorted in the same direction give a union sorted in that direction
+    """
+    many = [a for a in axes if a.size > 1]
+    if len(many) == 0 or not all(a.is_monotonic() for a in many):
+        return ax
+    decreasing = [bool(a.values[-1] < a.values[0]) for a in many]
+    if any(decreasing) != all(decreasing) or ax.size < 2:
+        return ax
+    values = np.sort(ax.values)
+    if all(decreasing):
+        values = values[::-1]
+    if np.all(values == ax.values):
+        return ax
+    new = ax.copy()
+    new.values = values
+    return new
+
 def _get_aligned_axes(arrays, join='outer', axis=None , sort=False, strict=False):
     """From a list of arrays, or any object with `axes` attributes, 
     a new list of axes.
@@ -199,6 +217,11 @@ def _get_aligned_axes(arrays, join='outer', axis=None , sort=False, strict=False
 
         # common axis to reindex on
         ax = _common_axis([arrays[i].axes[d] for i in ii], join)
+
+        # more than two axes: the pairwise unions cannot know the common direction when they first merge
+        # axes of fewer than two labels (which they take as increasing)
+        if join == 'outer' and not sort and len(ii) > 2:
+            ax = _keep_common_direction(ax, [arrays[i].axes[d] for i in ii])
 
         if sort:
             ax = ax.copy() # the common axis can be an input's own Axis object: never sort that in place
